@@ -196,6 +196,70 @@ func (sc v10Scenario) runAbaco(x *vexp.X) vexp.Result {
 	return sc.runHW(x, src, src.done, &src.AnySource, clock)
 }
 
+// v10Sim wraps the real TriangleSource / SimPulseSource (their timers behind always-ready seams) to count blocks.
+type v10Tri struct {
+	*TriangleSource
+	done chan struct{}
+}
+
+func (t *v10Tri) ProcessSegments(b *dataBlock) error {
+	err := t.TriangleSource.ProcessSegments(b)
+	select {
+	case t.done <- struct{}{}:
+	default:
+	}
+	return err
+}
+
+type v10Sim struct {
+	*SimPulseSource
+	done chan struct{}
+}
+
+func (t *v10Sim) ProcessSegments(b *dataBlock) error {
+	err := t.SimPulseSource.ProcessSegments(b)
+	select {
+	case t.done <- struct{}{}:
+	default:
+	}
+	return err
+}
+
+// runSimulated: the real simulated sources under Start, [request,] Stop from two callers, and a restart.
+func (sc v10Scenario) runSimulated(x *vexp.X) vexp.Result {
+	noClock := func(started chan struct{}) func() { return func() { <-started } }
+	var res vexp.Result
+	var src DataSource
+	var any *AnySource
+	var done chan struct{}
+	mk := func() {
+		if sc.simKind == "triangle" {
+			ts := NewTriangleSource()
+			if err := ts.Configure(&TriangleSourceConfig{Nchan: 2, SampleRate: 1e6, Min: 100, Max: 102}); err != nil {
+				panic("harness: " + err.Error())
+			}
+			w := &v10Tri{TriangleSource: ts, done: make(chan struct{}, 16)}
+			src, any, done = w, &ts.AnySource, w.done
+		} else {
+			sp := NewSimPulseSource()
+			if err := sp.Configure(&SimPulseSourceConfig{Nchan: 2, SampleRate: 1e5, Pedestal: 1000, Amplitudes: []float64{5000}, Nsamp: 20}); err != nil {
+				panic("harness: " + err.Error())
+			}
+			w := &v10Sim{SimPulseSource: sp, done: make(chan struct{}, 16)}
+			src, any, done = w, &sp.AnySource, w.done
+		}
+	}
+	mk()
+	vSimTicks = 3
+	res = sc.runHW(x, src, done, any, noClock)
+	if any.numberWrittenTicker != nil {
+		any.numberWrittenTicker.Stop()
+		any.writingState.externalTriggerTicker.Stop()
+		any.writingState.dataDropTicker.Stop()
+	}
+	return res
+}
+
 // runLancero: the real LanceroSource (StartRun/launchLanceroReader/getNextBlock worker/distributeData) with the
 // scripted card of C04.
 func (sc v10Scenario) runLancero(x *vexp.X) vexp.Result {
@@ -294,7 +358,11 @@ func (sc v10Scenario) runHW(x *vexp.X, src DataSource, done chan struct{}, any *
 	if viol != "" {
 		viol = fmt.Sprintf("%s: %s\nschedule: %s", sc.name, viol, s.TraceString())
 	}
-	return vexp.Result{Violation: viol, Class: class, Nontrivial: out.Preempt > 0, Outcome: fmt.Sprintf("stop=%v request=%s", stopErr == nil, reqOut)}
+	res := vexp.Result{Violation: viol, Class: class, Nontrivial: out.Preempt > 0, Outcome: fmt.Sprintf("stop=%v request=%s", stopErr == nil, reqOut)}
+	if out.Horizon {
+		res.CutAt = 60
+	}
+	return res
 }
 
 type v10Scenario struct {
@@ -302,18 +370,22 @@ type v10Scenario struct {
 	mode     string
 	nblocks  int
 	failStep string
-	nstop    int  // number of concurrent Stop callers (in addition to the starter, if starterStops)
-	writing  bool // writing switched on before the Stops
-	paused   bool // ... and paused
-	twoStart bool // S4: Start || Start on an inactive source
-	history  bool // S5: one thread, Start/Stop/Start histories
-	nreq     int  // S6/S7: threads that hand a request to the core loop (as runLaterIfActive does)
-	abaco    bool // S6: the real AbacoSource with a scripted packet producer
-	lancero  bool // S6: the real LanceroSource with the scripted card (implies abaco = hardware-source driver)
-	delay    bool // bound all deviations from the canonical schedule (delay bounding) instead of preemptions only
+	nstop    int    // number of concurrent Stop callers (in addition to the starter, if starterStops)
+	writing  bool   // writing switched on before the Stops
+	paused   bool   // ... and paused
+	twoStart bool   // S4: Start || Start on an inactive source
+	history  bool   // S5: one thread, Start/Stop/Start histories
+	nreq     int    // S6/S7: threads that hand a request to the core loop (as runLaterIfActive does)
+	abaco    bool   // S6: the real AbacoSource with a scripted packet producer
+	simKind  string // S8: "triangle" | "simpulse": the real simulated source (timers behind always-ready seams)
+	lancero  bool   // S6: the real LanceroSource with the scripted card (implies abaco = hardware-source driver)
+	delay    bool   // bound all deviations from the canonical schedule (delay bounding) instead of preemptions only
 }
 
 func (sc v10Scenario) run(x *vexp.X, dir string) vexp.Result {
+	if sc.simKind != "" {
+		return sc.runSimulated(x)
+	}
 	if sc.abaco {
 		return sc.runAbaco(x)
 	}
@@ -537,7 +609,7 @@ func TestVerifC10(t *testing.T) {
 	if r.Thorough() {
 		pbCore, pbWide, pbDelay = 3, 2, 5
 	}
-	r.SetBound(fmt.Sprintf("all interleavings (all select alternatives) with at most %d preemptions for the core scenarios (Start + 2 concurrent Stop callers against the real CoreLoop and a scripted producer that runs normally / sends an error block / closes its channel) and at most %d for the wider ones (Start || Start, 1-2 blocks before the event, 3 Stop callers, writing active or paused, a request handed to the core loop while Stop is called, Start/Stop/Start histories incl. a first Start failing in Sample, PrepareRun or StartRun), each followed by a restart of the same source object; and the real AbacoSource (scripted packet producer, clock thread) and LanceroSource (scripted card, clock thread) under Start, a queued request and Stop; the request and Abaco scenarios are delay-bounded: at most %d deviations of any kind (thread choice or select alternative) from the canonical schedule", pbCore, pbWide, pbDelay))
+	r.SetBound(fmt.Sprintf("all interleavings (all select alternatives) with at most %d preemptions for the core scenarios (Start + 2 concurrent Stop callers against the real CoreLoop and a scripted producer that runs normally / sends an error block / closes its channel) and at most %d for the wider ones (Start || Start, 1-2 blocks before the event, 3 Stop callers, writing active or paused, a request handed to the core loop while Stop is called, Start/Stop/Start histories incl. a first Start failing in Sample, PrepareRun or StartRun), each followed by a restart of the same source object; and the real AbacoSource (scripted packet producer, clock thread) and LanceroSource (scripted card, clock thread) and the real TriangleSource / SimPulseSource (timers behind a seam: ready three times per execution) under Start, a queued request and Stop; the request and Abaco scenarios are delay-bounded: at most %d deviations of any kind (thread choice or select alternative) from the canonical schedule", pbCore, pbWide, pbDelay))
 	dir := filepath.Join(os.Getenv("TMPDIR"), "c10")
 	os.MkdirAll(dir, 0755)
 	var scs []v10Scenario
@@ -574,6 +646,10 @@ func TestVerifC10(t *testing.T) {
 	scs = append(scs, v10Scenario{name: "S6-abaco/no-request", abaco: true, nblocks: 1, nreq: 0, delay: true})
 	scs = append(scs, v10Scenario{name: "S6-lancero/request/stop-after-block", abaco: true, lancero: true, nblocks: 1, nreq: 1, delay: true})
 	scs = append(scs, v10Scenario{name: "S6-lancero/request/stop-at-once", abaco: true, lancero: true, nblocks: 0, nreq: 1, delay: true})
+	for _, k := range []string{"triangle", "simpulse"} {
+		scs = append(scs, v10Scenario{name: "S8-" + k + "/request/stop-after-block", simKind: k, nblocks: 1, nreq: 1, delay: true})
+		scs = append(scs, v10Scenario{name: "S8-" + k + "/stop-at-once", simKind: k, nblocks: 0, nreq: 0, delay: true})
+	}
 	if r.Thorough() {
 		scs = append(scs, v10Scenario{name: "S6-abaco/two-requests", abaco: true, nblocks: 1, nreq: 2, delay: true})
 	}
